@@ -74,11 +74,17 @@ pub struct Scanner {
     pub keyword_any_catcode: bool,
     /// §407 skips space tokens in front of a keyword (and does not restore them)
     pub keyword_skips_spaces: bool,
+    /// §454: every `l` after `fil` is a keyword of its own, so spaces (and expansion) may precede it.
+    /// `false` = the known deviation "an l must follow fil immediately".
+    pub fil_l_skips_spaces: bool,
+    /// §448/§460: an out-of-range result is replaced by +max_dimen and negated by explicit signs only.
+    /// `true` = the known deviation "the clamped value also takes the sign of an internal unit".
+    pub clamp_sign_follows_unit: bool,
 }
 
 impl Scanner {
     pub fn new(toks: Vec<Tok>) -> Scanner {
-        Scanner { input: toks.into(), errors: vec![], undefined: false, em: 0, ex: 0, max_char: 0x10FFFF, keyword_any_catcode: true, keyword_skips_spaces: true }
+        Scanner { input: toks.into(), errors: vec![], undefined: false, em: 0, ex: 0, max_char: 0x10FFFF, keyword_any_catcode: true, keyword_skips_spaces: true, fil_l_skips_spaces: true, clamp_sign_follows_unit: false }
     }
     fn get_token(&mut self) -> Tok {
         self.input.pop_front().unwrap_or(Tok::End)
@@ -264,10 +270,16 @@ impl Scanner {
                         Tok::Int(v) => cur_val = v,
                         Tok::Dimen(v) => {
                             cur_val = v;
+                            if v < -INFINITY {
+                                self.undefined = true; // abs(-2^31)
+                            }
                             break 'attach_sign;
                         }
                         Tok::Glue(g) => {
                             cur_val = g.width;
+                            if g.width < -INFINITY {
+                                self.undefined = true;
+                            }
                             break 'attach_sign;
                         }
                         t => {
@@ -324,7 +336,14 @@ impl Scanner {
                         // §454
                         if self.scan_keyword("fil") {
                             cur_order = 1;
-                            while self.scan_keyword("l") {
+                            loop {
+                                let save = self.keyword_skips_spaces;
+                                self.keyword_skips_spaces = save && self.fil_l_skips_spaces;
+                                let found = self.scan_keyword("l");
+                                self.keyword_skips_spaces = save;
+                                if !found {
+                                    break;
+                                }
                                 if cur_order == 3 {
                                     self.errors.push(ScanError::IllegalFil);
                                 } else {
@@ -372,6 +391,9 @@ impl Scanner {
                                 0
                             }
                         };
+                        if arith_error && v < 0 && self.clamp_sign_follows_unit {
+                            negative = !negative;
+                        }
                         break 'attach_sign;
                     }
                     // §456: \mag is 1000 here, "true" is scanned and changes nothing
@@ -482,16 +504,17 @@ impl Scanner {
         q
     }
 
-    /// What main control does with the rest of the list up to the first control sequence: character
-    /// tokens are typeset (returned as text), macros are expanded. `None` if an internal quantity is
-    /// met first (that would start an assignment; outside what the checks look at).
+    /// What main control does with the rest of the list: character tokens are typeset (returned as
+    /// text), macros are expanded, `Cs(None)` stands for \\relax. `None` if an internal quantity, an
+    /// undefined name or a special character is met (outside what the checks look at).
     pub fn rest_text(&mut self) -> Option<String> {
         let mut s = String::new();
         loop {
             match self.get_x_token() {
                 Tok::Letter(c) | Tok::Other(c) => s.push(c),
                 Tok::Space => s.push(' '),
-                Tok::Cs(None) | Tok::End => return Some(s),
+                Tok::Cs(None) => {} // \relax: no effect
+                Tok::End => return Some(s),
                 _ => return None,
             }
         }
